@@ -47,10 +47,14 @@ FLOAT_EXACT = dict(float16=2 ** 11, float32=2 ** 24, float64=2 ** 53)
 WIDER = dict(float16="float32", float32="float64", uint8="uint16", uint16="uint32", uint32="uint64")
 
 
+def dtype_at(a, i) -> str:
+    return a["dtypes"][i] if a.get("dtypes") else a["dtype"]
+
+
 def simulate(c) -> list:
     """What the writer probes do to the five containers, step by step (python twin of Model/Result.v
     apply_write, used ONLY to keep generated values inside the exactly representable range of their dtype).
-    -> [(bucket, dtype of the buffer, largest value, action)] for every write of every step."""
+    -> [(bucket, dtype of the buffer, largest value, action, step)] for every write of every step."""
     n, nel = len(c["times"]), c["rows"] * c["cols"]
     out = []
     pixel = None
@@ -70,12 +74,12 @@ def simulate(c) -> list:
                 if b == "charge":
                     st[b] = ["float64", top + (cur[1] if mode == "iadd" else 0)]
                 elif cur is None or mode == "assign":
-                    st[b] = [a["dtype"], top]
+                    st[b] = [dtype_at(a, i), top]
                 elif mode == "iadd":
                     st[b] = [cur[0], cur[1] + top]
                 else:
                     st[b] = [cur[0], top]
-                out.append((b, st[b][0], st[b][1], a))
+                out.append((b, st[b][0], st[b][1], a, i))
         pixel = st["pixel"]
     return out
 
@@ -83,24 +87,28 @@ def simulate(c) -> list:
 def fit_dtypes(c) -> bool:
     """Widen writer dtypes until every value the probes produce is exactly representable (and, under debug,
     small enough for np.allclose on integers to be equality).  False: give the case up."""
-    for _ in range(8):
+    for _ in range(24):
         bad = None
-        for b, dt, top, a in simulate(c):
+        for b, dt, top, a, i in simulate(c):
             lim = UMAX[dt] if dt in UMAX else FLOAT_EXACT[dt]
             if c["debug"]:
                 lim = min(lim, 90000)
             if top >= lim:
-                bad = (b, dt)
+                bad = (b, dt, i)
                 break
         if bad is None:
             return True
-        b, dt = bad
+        b, dt, i = bad
         if dt not in WIDER:
             return False
         for m in c["models"]:
             for a in m["actions"]:
-                if a.get("kind") == "write" and a["bucket"] == b and a["dtype"] == dt:
-                    a["dtype"] = WIDER[dt]
+                if a.get("kind") == "write" and a["bucket"] == b:
+                    if a.get("dtypes"):
+                        if a["dtypes"][i] == dt:      # widen the dtype written at that step only
+                            a["dtypes"][i] = WIDER[dt]
+                    elif a["dtype"] == dt:
+                        a["dtype"] = WIDER[dt]
     return False
 
 
@@ -110,6 +118,89 @@ def gen_case(r, force=None) -> dict:
         if fit_dtypes(c):
             return c
     raise RuntimeError("C03 generator: no representable case in 50 tries")
+
+
+FLOATS = ["float16", "float32", "float64"]
+UINTS = ["uint8", "uint16", "uint32", "uint64"]
+LABEL_KINDS = ["index", "one_based", "reversed", "half", "big", "negative", "shuffled"]
+CUBE_EXTRAS = ["row_mm", "col_name", "band", "mask", "exposure_id"]
+
+
+def dtype_sequence(r, n, pool) -> list:
+    """A dtype per step, at least two different ones: narrowing, widening, a narrow step in the middle, or any."""
+    for _ in range(20):
+        pat = r.choice(["narrowing", "narrowing", "widening", "dip", "any"])
+        if pat == "any":
+            seq = [r.choice(pool) for _ in range(n)]
+        else:
+            k = min(n, len(pool))
+            picks = sorted(r.sample(range(len(pool)), r.randrange(2, k + 1) if k >= 2 else 1))
+            lad = [pool[j] for j in picks]
+            if pat == "narrowing":
+                lad = lad[::-1]
+            seq = [lad[min(i * len(lad) // n, len(lad) - 1)] for i in range(n)]
+            if pat == "dip" and n >= 3:
+                seq = [lad[-1]] * n
+                seq[r.randrange(1, n - 1)] = lad[0]
+        if len(set(seq)) >= 2:
+            return seq
+    return [pool[-1]] + [pool[0]] * (n - 1)
+
+
+def value_for(r, dt, debug, nelem) -> int:
+    """A base value that the dtype holds exactly (with nelem - 1 added) and that most NARROWER types do not hold."""
+    if dt == "float64":
+        opts = [(2049, 60000), (65505, 80000)] if debug else [(2 ** 24 + 1, 2 ** 24 + 5000), (2 ** 24 + 1, 2 ** 30), (2049, 60000), (65505, 10 ** 6)]
+    elif dt == "float32":
+        opts = [(2049, 60000), (65505, 80000)] if debug else [(2049, 60000), (65505, 2 ** 24 - 5000)]
+    elif dt == "float16":
+        opts = [(1, 1900)]
+    elif dt == "uint64":
+        opts = [(66000, 80000)] if debug else [(2 ** 32 + 5, 2 ** 53 - 10 ** 6), (66000, 10 ** 9)]
+    elif dt == "uint32":
+        opts = [(66000, 80000)] if debug else [(66000, 2 ** 32 - 5000)]
+    elif dt == "uint16":
+        opts = [(257, 60000)]
+    else:
+        opts = [(1, 200)]
+    lo, hi = r.choice(opts)
+    v = r.randrange(lo, hi)
+    return v | 1                   # odd: just above a power of two it has no value in the narrower float type
+
+
+def labels_of(kind, n, r) -> list:
+    if kind == "index":
+        return list(range(n))
+    if kind == "one_based":
+        return list(range(1, n + 1))
+    if kind == "reversed":
+        return list(range(n - 1, -1, -1))
+    if kind == "half":
+        return [i + 0.5 for i in range(n)]
+    if kind == "big":
+        return [1000 + 10 * i for i in range(n)]
+    if kind == "negative":
+        return [-(i + 1) for i in range(n)]
+    lab = list(range(n))
+    r.shuffle(lab)
+    return lab[::-1] if lab == list(range(n)) and n > 1 else lab
+
+
+def gen_cube(r, rows, cols, force=None) -> dict | None:
+    """Coordinates a photon cube carries besides `wavelength` (None: none, what pyxel's own models produce)."""
+    if force is not None:          # label KINDS: the lists depend on the detector's shape
+        return dict(y=None if force.get("yk") is None else labels_of(force["yk"], rows, r),
+                    x=None if force.get("xk") is None else labels_of(force["xk"], cols, r),
+                    extra=list(force.get("extra", [])), order=force.get("order", 0))
+    if r.random() < 0.35:
+        return None
+    yk = r.choice([None] + LABEL_KINDS + ["half", "one_based"])
+    xk = r.choice([None] + LABEL_KINDS)
+    if yk is None and xk is None and r.random() < 0.7:
+        yk = r.choice(LABEL_KINDS)
+    extra = [e for e in CUBE_EXTRAS if r.random() < 0.25]
+    return dict(y=None if yk is None else labels_of(yk, rows, r), x=None if xk is None else labels_of(xk, cols, r),
+                extra=extra, order=r.randrange(3))
 
 
 def gen_case_once(r, force=None) -> dict:
@@ -131,8 +222,24 @@ def gen_case_once(r, force=None) -> dict:
     waves = force.get("waves", r.choice([0, 0, 1, 2, 3]))
     nelem = rows * cols * 3
     image_small = debug or (inplace and "image" in buckets)
+    cube = gen_cube(r, rows, cols, force.get("cube")) if (waves and "photon" in buckets) else None
+    # buckets whose dtype CHANGES from step to step (narrower and wider): the values of a step are exact in the dtype
+    # of that step and, mostly, not representable in the narrower dtypes of the other steps
+    change = {}
+    want_change = force.get("change")
+    if n >= 2 and (want_change or (want_change is None and r.random() < 0.3)):
+        cand = [b for b in buckets if b in ("photon", "pixel", "signal", "image")]
+        if isinstance(want_change, (list, tuple)):
+            cand = [b for b in want_change if b in buckets]
+            picked = cand
+        else:
+            picked = r.sample(cand, min(len(cand), r.choice([1, 1, 2]))) if cand else []
+        for b in picked:
+            change[b] = dtype_sequence(r, n, UINTS if b == "image" else FLOATS)
 
     def per_step(bucket):
+        if bucket in change:
+            return [value_for(r, dt, debug, nelem) for dt in change[bucket]]
         if bucket == "image":
             if image_dt == "uint8" or image_small:
                 hi = 250 - nelem - 7 * n
@@ -154,8 +261,14 @@ def gen_case_once(r, force=None) -> dict:
             dt = "float64"          # Photon.to_xarray converts a cube to float64: the one dtype it could share
         else:
             dt = r.choice(["float16", "float32", "float64"])
-        return dict(kind="write", bucket=bucket, dtype=dt, waves=waves if bucket == "photon" else 0,
-                    mode=mode, idiom=r.randrange(3), per_step=per_step(bucket))
+        a = dict(kind="write", bucket=bucket, dtype=dt, waves=waves if bucket == "photon" else 0,
+                 mode=mode, idiom=r.randrange(3), per_step=per_step(bucket))
+        if bucket in change:
+            a["dtypes"] = list(change[bucket])
+            a["dtype"] = change[bucket][0]
+        if bucket == "photon" and waves and cube is not None:
+            a["cube"] = cube
+        return a
 
     order = list(buckets)
     if r.random() < 0.3:
@@ -168,7 +281,7 @@ def gen_case_once(r, force=None) -> dict:
         if b == "charge" and first == "assign" and r.random() < 0.6:
             first = "iadd"          # Charge.add_charge_array, what pyxel's models do
         acts.append((g, writer(b, first)))
-        if inplace and r.random() < 0.65:
+        if inplace and r.random() < (0.25 if b in change else 0.65):
             for _ in range(r.choice([1, 1, 2, 3])):
                 g = r.randrange(g, 5)
                 acts.append((g, writer(b, r.choice(["iadd", "iadd", "iadd", "iset", "assign"]))))
@@ -294,6 +407,63 @@ def fixed_cases() -> list:
         cs.append(dict(rows=1, cols=2, start=0, times=[8, 16, 24], nondestr=nd, hier=False, debug=True,
                        models=[dict(group="photon_collection", name="wp", actions=[w("photon", "float64", [5, 5, 5])]),
                                dict(group="charge_collection", name="wx", actions=[w("pixel", "float64", [3, 3, 9])]), L()]))
+    # ---- a bucket whose dtype CHANGES between the readouts (round 2b).  The variable of the result has ONE dtype:
+    # the widest of the steps; no slice may be converted to a narrower one.  Values: exact in the dtype of their
+    # step, not representable in the narrower dtypes of the other steps (2^24 + 3 has no float32 value, 2051 and
+    # 70001 no float16 value; 70001 no uint16 value, 301 no uint8 value).
+    BIG = dict(float64=2 ** 24 + 3, float32=2051, float16=5, uint64=2 ** 32 + 7, uint32=70001, uint16=301, uint8=9)
+    fseqs = [["float64", "float32"], ["float64", "float16"], ["float32", "float16"], ["float64", "float32", "float16"],
+             ["float16", "float32", "float64"], ["float64", "float16", "float64"]]
+    k = 0
+    for b, waves, group in (("photon", 0, "photon_collection"), ("photon", 2, "photon_collection"),
+                            ("pixel", 0, "charge_collection"), ("signal", 0, "charge_measurement")):
+        for seq in fseqs:
+            k += 1
+            n = len(seq)
+            big = dict(BIG, float64=70001) if k % 4 == 0 else BIG            # under debug: small enough for np.allclose
+            a = w(b, seq[0], [big[d] + 2 * i for i, d in enumerate(seq)], waves)
+            a["dtypes"] = list(seq)
+            cs.append(dict(rows=1, cols=2, start=0, times=[8 * (i + 1) for i in range(n)], nondestr=(k % 3 == 0),
+                           hier=(k % 2 == 0), debug=(k % 4 == 0),
+                           models=[dict(group=group, name="wd", actions=[a]),
+                                   dict(group="readout_electronics", name="wi", actions=[w("image", "uint16", [7 + i for i in range(n)])]), L()]))
+    for seq in (["uint32", "uint8"], ["uint16", "uint8", "uint16"], ["uint64", "uint32"], ["uint8", "uint16", "uint32"],
+                ["uint64", "uint8", "uint16"]):
+        n = len(seq)
+        a = w("image", seq[0], [BIG[d] + 2 * i for i, d in enumerate(seq)])
+        a["dtypes"] = list(seq)
+        cs.append(dict(rows=1, cols=2, start=0, times=[8 * (i + 1) for i in range(n)], nondestr=False, hier=False, debug=False,
+                       models=[dict(group="charge_collection", name="wx", actions=[w("pixel", "float32", [3 + i for i in range(n)])]),
+                               dict(group="readout_electronics", name="wi", actions=[a]), L()]))
+    # two buckets change at once, in opposite directions; a follow-up writer adds in place (keeps the dtype of the step)
+    a1 = w("pixel", "float64", [2 ** 24 + 3, 2051, 9]); a1["dtypes"] = ["float64", "float32", "float16"]
+    a2 = w("signal", "float16", [9, 2051, 2 ** 24 + 3]); a2["dtypes"] = ["float16", "float32", "float64"]
+    cs.append(dict(rows=2, cols=1, start=4, times=[8, 16, 24], nondestr=True, hier=True, debug=False,
+                   models=[dict(group="charge_collection", name="wx", actions=[a1]),
+                           dict(group="charge_collection", name="wx2", actions=[w("pixel", "float64", [2, 2, 2], mode="iadd")]),
+                           dict(group="charge_measurement", name="ws", actions=[a2]), L()]))
+    # ---- multi-wavelength photons whose cube carries its OWN coordinates (round 2b): y / x labels other than the
+    # indices (pixel centres, 1-based, reversed, shuffled, negative), index-valued labels, further coordinates along y,
+    # x, wavelength, (y, x) and a scalar one, given in several orders.  The result is labelled with the row and column
+    # indices and every other bucket keeps its values.
+    cubes = [dict(y=[0.5, 1.5], x=None, extra=[], order=0), dict(y=[1, 2], x=[1, 2, 3], extra=[], order=1),
+             dict(y=[1, 0], x=[2, 1, 0], extra=["row_mm"], order=2), dict(y=[0, 1], x=[0, 1, 2], extra=["band", "exposure_id"], order=0),
+             dict(y=None, x=[1000, 1010, 1020], extra=["mask", "col_name"], order=1), dict(y=[-1, -2], x=[0.5, 1.5, 2.5], extra=[], order=2),
+             dict(y=None, x=None, extra=["row_mm", "col_name", "band", "mask", "exposure_id"], order=1),
+             dict(y=[1, 2], x=None, extra=[], order=0)]
+    for j, cube in enumerate(cubes):
+        n = 1 + j % 3
+        ps = lambda base: [base + 9 * i for i in range(n)]  # noqa: E731
+        p1 = w("photon", "float64" if j % 2 else "float32", ps(1), 2, "assign"); p1["cube"] = cube
+        p2 = w("photon", "float64", ps(40), 2, "iadd" if j % 2 else "iset"); p2["cube"] = cube
+        cs.append(dict(rows=2, cols=3, start=0, times=[8 * (i + 1) for i in range(n)], nondestr=(j % 2 == 1), hier=(j % 4 == 2),
+                       debug=(j % 3 == 1),
+                       models=[dict(group="photon_collection", name="wp", actions=[p1])]
+                              + ([dict(group="photon_collection", name="wp2", actions=[p2])] if j >= 4 else [])
+                              + [dict(group="charge_generation", name="wc", actions=[w("charge", "float64", ps(2), mode="iadd")]),
+                                 dict(group="charge_collection", name="wx", actions=[w("pixel", "float32", ps(3))]),
+                                 dict(group="charge_measurement", name="ws", actions=[w("signal", "float64", ps(4))]),
+                                 dict(group="readout_electronics", name="wi", actions=[w("image", "uint16", ps(500))]), L()]))
     return cs
 
 
@@ -360,7 +530,11 @@ def c_payload(p) -> str:
 def c_action(a) -> str:
     k = a["kind"]
     if k == "write":
-        return (f"AWrite {{| w_bucket := {CB[a['bucket']]}; w_dt := {CDT[a['dtype']]}; w_waves := {core.cz(a.get('waves', 0))}; "
+        cube = a.get("cube") or {}
+        lab = lambda v: "None" if v is None else f"(Some {zl(to_int(x) for x in v)})"  # noqa: E731
+        return (f"AWrite {{| w_bucket := {CB[a['bucket']]}; w_dt := {CDT[a['dtype']]}; "
+                f"w_dts := {core.clist(CDT[d] for d in (a.get('dtypes') or []))}; w_waves := {core.cz(a.get('waves', 0))}; "
+                f"w_ylab := {lab(cube.get('y'))}; w_xlab := {lab(cube.get('x'))}; "
                 f"w_mode := {CMODE[a.get('mode', 'assign')]}; w_per_step := {zl(a['per_step'])} |}}")
     if k == "data":
         return f"AData {core.cstr(a['key'])} {zl(a['per_step'])}"
@@ -650,7 +824,13 @@ def run(ctx: Ctx):
     budget = ctx.budget(160, 1200)
     aimed = [dict(buckets=["photon", "signal", "pixel"], n=3, partial=True), dict(buckets=["photon"], n=4, partial=True, debug=True),
              dict(buckets=["signal", "image"], n=2, partial=True), dict(buckets=["pixel"], n=3), dict(buckets=["photon", "signal"], n=2), dict(debug=True, n=3),
-             dict(debug=True, nondestr=True, n=2), dict(scene=True, hier=False), dict(data=True, n=4)]
+             dict(debug=True, nondestr=True, n=2), dict(scene=True, hier=False), dict(data=True, n=4),
+             dict(buckets=["photon", "pixel", "signal"], n=3, change=["pixel", "signal"], debug=False),
+             dict(buckets=["photon", "pixel"], n=2, change=["photon"], waves=0), dict(buckets=["photon", "image"], n=4, change=["photon", "image"], waves=2),
+             dict(buckets=["pixel", "image"], n=3, change=["image"], debug=True), dict(buckets=["signal"], n=5, change=["signal"], nondestr=True),
+             dict(buckets=["photon", "charge", "pixel", "signal", "image"], n=2, waves=1, cube=dict(yk="half", xk=None)),
+             dict(buckets=["photon", "pixel", "image"], n=3, waves=3, debug=True, cube=dict(yk="one_based", xk="reversed", extra=["mask"])),
+             dict(buckets=["photon", "charge"], n=1, waves=2, cube=dict(yk=None, xk="big", order=1))]
     for f in aimed:
         cases.append(gen_case(r, f))
     while len(cases) < budget:
@@ -680,6 +860,16 @@ def run(ctx: Ctx):
                         ctx.dist("initialised_in_some_steps_only", a["bucket"] + ("_3d" if a.get("waves") else ""))
                     if a["bucket"] != "image":
                         ctx.dist("float_dtype", a["dtype"])
+                    if a.get("dtypes"):
+                        seq = a["dtypes"]
+                        order = UINTS if a["bucket"] == "image" else FLOATS
+                        narrows = any(order.index(seq[j]) < order.index(seq[i]) for i in range(len(seq)) for j in range(i + 1, len(seq)))
+                        ctx.dist("dtype_changes_between_steps", a["bucket"] + ("_3d" if a.get("waves") else "") + ("/narrows" if narrows else "/widens"))
+                    if a.get("waves"):
+                        cube = a.get("cube")
+                        ctx.dist("cube_coordinates", "none" if not cube else
+                                 ("y" if cube.get("y") is not None else "") + ("x" if cube.get("x") is not None else "")
+                                 + ("+extra" if cube.get("extra") else "") or "none")
                 elif a.get("kind") in ("data", "scene"):
                     ctx.dist("bucket_written", a["kind"])
         per_b = {}
